@@ -344,6 +344,17 @@ def c_mobility_tables(site, fx):
     if not (isinstance(ln, tuple) and ln[0] == "const"):
         return False
     n = ln[1]
+    # a count computed by a small helper of the eval module: look at the helper's own (single, unconditional) return expression
+    from facts import decision_paths, substitute_args
+    d = deep_strip(ix)
+    for _ in range(2):
+        if isinstance(d, tuple) and d and d[0] == "call" and isinstance(d[1], str) and "engine::eval::" in d[1] and fx.body(d[1]) is not None:
+            hp = [p for p in decision_paths(fx.body(d[1]), 8) if p[1] is not None]
+            if len(hp) == 1 and not hp[0][0]:
+                d = deep_strip(substitute_args(hp[0][1], d[2]))
+                ix = d
+                continue
+        break
     if find_calls(ix, "knights::knight_attacks"):
         return n >= 9
     if find_calls(ix, "magics::bishop_attacks") and find_calls(ix, "magics::rook_attacks"):
